@@ -1,7 +1,7 @@
 (* Quote/Proofs.v — lemmas and theorems of C03: the encoders of Quote/{Sh,Ninja,Rule}.v
    are inverted by the reference decoders of Quote/{Sh,Ninja,Rsp,Spec}.v, for ALL
    argument strings / lists. *)
-From MV Require Import Base.Strs Base.LexFacts Quote.Sh Quote.Ninja Quote.Rsp Quote.Rule Quote.Spec.
+From MV Require Import Base.Strs Base.LexFacts Quote.Sh Quote.Ninja Quote.Rsp Quote.Rule Quote.Spec Quote.Templ.
 From Coq Require Import Lia ZifyBool.
 Open Scope N_scope.
 
@@ -1015,3 +1015,444 @@ Proof.
       * rewrite (command_elements_reject QfRsp true _ C) in Hw. discriminate.
   - apply IH. intros n Hn. apply Hb. right. exact Hn.
 Qed.
+
+(* ================================================================== extension round *)
+
+(* ------------------------------------------------------------------ build lines: path mode *)
+
+Definition pathok (p : str) : bool :=
+  match p with [] => false | _ => nclean p && negb (memb 124 p) end.
+
+Definition tail_ok (tail : str) : Prop :=
+  tail = [] \/ exists c t, tail = c :: t /\ path_end c = true.
+
+Lemma np_body : forall p acc tail, nclean p = true -> memb 124 p = false ->
+  npaths (PIn acc) (nq_sub nq_build_class p ++ tail) = npaths (PIn (rev p ++ acc)) tail.
+Proof.
+  induction p as [|c p IH]; intros acc tail H B; [reflexivity|].
+  rewrite nclean_cons in H. apply andb_true_iff in H. destruct H as [Hc Hp]. apply negb_true_iff in Hc.
+  cbn [memb] in B. apply orb_false_iff in B. destruct B as [Bc Bp].
+  unfold nq_sub in *. cbn [flat_map]. unfold nq_build_class at 1. cbn [memb].
+  assert (CASES : c = 32 \/ c = 36 \/ c = 58 \/
+                  ((c =? 10) || ((c =? 32) || ((c =? 36) || ((c =? 58) || false))) = false /\
+                   (c =? 32) = false /\ path_end c = false /\ (c =? 13) = false /\ (c =? 36) = false))
+    by (unfold nbad in Hc; unfold path_end; lia).
+  destruct CASES as [->|[->|[->|(E0 & E1 & E2 & E3 & E4)]]].
+  - cbn. rewrite (IH _ _ Hp Bp). rewrite <- app_assoc. reflexivity.
+  - cbn. rewrite (IH _ _ Hp Bp). rewrite <- app_assoc. reflexivity.
+  - cbn. rewrite (IH _ _ Hp Bp). rewrite <- app_assoc. reflexivity.
+  - rewrite E0. cbn [app npaths]. rewrite E1, E2, E3, E4. rewrite (IH _ _ Hp Bp).
+    cbn [rev]. rewrite <- app_assoc. reflexivity.
+Qed.
+
+Lemma np_start p tail : pathok p = true ->
+  npaths PSkip (nq_sub nq_build_class p ++ tail) = npaths (PIn (rev p)) tail.
+Proof.
+  unfold pathok. destruct p as [|c p]; [discriminate|]. intros H.
+  apply andb_true_iff in H. destruct H as [H B]. apply negb_true_iff in B.
+  rewrite nclean_cons in H. apply andb_true_iff in H. destruct H as [Hc Hp]. apply negb_true_iff in Hc.
+  cbn [memb] in B. apply orb_false_iff in B. destruct B as [Bc Bp].
+  unfold nq_sub. cbn [flat_map]. fold (nq_sub nq_build_class p). unfold nq_build_class at 1. cbn [memb].
+  assert (CASES : c = 32 \/ c = 36 \/ c = 58 \/
+                  ((c =? 10) || ((c =? 32) || ((c =? 36) || ((c =? 58) || false))) = false /\
+                   (c =? 32) = false /\ path_end c = false /\ (c =? 13) = false /\ (c =? 36) = false))
+    by (unfold nbad in Hc; unfold path_end; lia).
+  destruct CASES as [->|[->|[->|(E0 & E1 & E2 & E3 & E4)]]].
+  - cbn. rewrite (np_body _ _ _ Hp Bp). reflexivity.
+  - cbn. rewrite (np_body _ _ _ Hp Bp). reflexivity.
+  - cbn. rewrite (np_body _ _ _ Hp Bp). reflexivity.
+  - rewrite E0. cbn [app npaths]. rewrite E1, E2, E3, E4. rewrite (np_body _ _ _ Hp Bp). reflexivity.
+Qed.
+
+Lemma np_tail_skip tail : tail_ok tail -> npaths PSkip tail = POk [] tail.
+Proof.
+  intros [->|(c & t & -> & Hc)]; [reflexivity|]. cbn [npaths]. rewrite Hc.
+  assert ((c =? 32) = false) by (unfold path_end in Hc; lia). rewrite H. reflexivity.
+Qed.
+
+Lemma np_tail_in acc tail : tail_ok tail -> npaths (PIn acc) tail = POk [rev acc] tail.
+Proof.
+  intros [->|(c & t & -> & Hc)]; [reflexivity|]. cbn [npaths]. rewrite Hc.
+  assert ((c =? 32) = false) by (unfold path_end in Hc; lia). rewrite H. reflexivity.
+Qed.
+
+Definition qpaths (ps : list str) : str := join [32] (map (nq_sub nq_build_class) ps).
+
+(* a list of paths written on a build line is read back by ninja as exactly that list,
+   up to the terminator (':' '|' newline or end) *)
+Theorem path_list_roundtrip : forall ps tail, forallb pathok ps = true -> tail_ok tail ->
+  ninja_paths (qpaths ps ++ tail) = POk ps tail.
+Proof.
+  unfold ninja_paths, qpaths. induction ps as [|p ps IH]; intros tail H T.
+  - apply np_tail_skip. exact T.
+  - cbn [forallb] in H. apply andb_true_iff in H. destruct H as [Hp Hps].
+    destruct ps as [|p2 ps].
+    + cbn [map join]. rewrite (np_start _ _ Hp). rewrite (np_tail_in _ _ T). rewrite rev_involutive. reflexivity.
+    + cbn [map]. rewrite join_cons2. rewrite <- app_assoc. rewrite (np_start _ _ Hp).
+      cbn [app npaths N.eqb Pos.eqb]. specialize (IH tail Hps T). cbn [map] in IH.
+      rewrite IH. cbn. rewrite rev_involutive. reflexivity.
+Qed.
+
+(* the same when the list is followed by " | ..." / " || ...": the separating blank is skipped *)
+Theorem path_list_roundtrip_blank : forall ps tail, forallb pathok ps = true -> tail_ok tail ->
+  ninja_paths (qpaths ps ++ 32 :: tail) = POk ps tail.
+Proof.
+  unfold ninja_paths, qpaths. induction ps as [|p ps IH]; intros tail H T.
+  - cbn. apply np_tail_skip. exact T.
+  - cbn [forallb] in H. apply andb_true_iff in H. destruct H as [Hp Hps].
+    destruct ps as [|p2 ps].
+    + cbn [map join]. rewrite (np_start _ _ Hp). cbn [npaths N.eqb Pos.eqb]. rewrite (np_tail_skip _ T). cbn.
+      rewrite rev_involutive. reflexivity.
+    + cbn [map]. rewrite join_cons2. rewrite <- app_assoc. rewrite (np_start _ _ Hp).
+      cbn [app npaths N.eqb Pos.eqb]. specialize (IH tail Hps T). cbn [map] in IH.
+      rewrite IH. cbn. rewrite rev_involutive. reflexivity.
+Qed.
+
+Lemma ninja_quote_build_ok p : pathok p = true -> ninja_quote true p = QOk (nq_sub nq_build_class p).
+Proof.
+  unfold pathok. destruct p as [|c0 p0]; [discriminate|]. set (p := c0 :: p0). intros H.
+  apply andb_true_iff in H. destruct H as [H B]. apply negb_true_iff in B.
+  destruct (nclean_memb p H) as [A1 A2]. unfold ninja_quote. rewrite A1, A2, B. cbn [orb andb].
+  destruct (memb 32 p || memb 36 p || memb 58 p) eqn:E; [reflexivity|].
+  apply orb_false_iff in E. destruct E as [E E3]. apply orb_false_iff in E. destruct E as [E1 E2].
+  rewrite nq_sub_id; [reflexivity|].
+  intros c Hc. unfold nq_build_class in Hc. cbn [memb] in Hc.
+  assert (c = 10 \/ c = 32 \/ c = 36 \/ c = 58) as [->|[->|[->| ->]]] by lia; assumption.
+Qed.
+
+Lemma quote_paths_ok ps : forallb pathok ps = true -> quote_paths ps = QOk (qpaths ps).
+Proof.
+  intros H. unfold quote_paths, qpaths. rewrite (qmap_ok _ (nq_sub nq_build_class)); [reflexivity|].
+  intros x Hx. apply ninja_quote_build_ok. rewrite forallb_forall in H. apply H. exact Hx.
+Qed.
+
+Lemma bs_slash_app a b : bs_slash (a ++ b) = bs_slash a ++ bs_slash b.
+Proof. unfold bs_slash. apply map_app. Qed.
+
+Lemma bs_slash_nq_sub p : bs_slash (nq_sub nq_build_class p) = nq_sub nq_build_class (bs_slash p).
+Proof.
+  induction p as [|c p IH]; [reflexivity|].
+  unfold nq_sub in *. cbn [flat_map bs_slash map]. fold (bs_slash p). rewrite bs_slash_app, IH. f_equal.
+  unfold nq_build_class. cbn [memb].
+  destruct (c =? 92) eqn:E.
+  - apply N.eqb_eq in E. subst. reflexivity.
+  - destruct ((c =? 10) || ((c =? 32) || ((c =? 36) || ((c =? 58) || false)))) eqn:M; cbn [bs_slash map]; rewrite E; reflexivity.
+Qed.
+
+Lemma bs_slash_qpaths ps : bs_slash (qpaths ps) = qpaths (map bs_slash ps).
+Proof.
+  unfold qpaths. induction ps as [|p ps IH]; [reflexivity|].
+  destruct ps as [|p2 ps].
+  - cbn [map join]. apply bs_slash_nq_sub.
+  - cbn [map]. rewrite !join_cons2. rewrite !bs_slash_app, bs_slash_nq_sub. cbn [map] in IH. rewrite IH. reflexivity.
+Qed.
+
+Lemma pathok_bs_slash p : pathok (bs_slash p) = pathok p.
+Proof.
+  unfold pathok. destruct p as [|c p]; [reflexivity|]. set (q := c :: p). cbn [bs_slash map]. fold (bs_slash p).
+  change ((if c =? 92 then 47 else c) :: bs_slash p) with (bs_slash q).
+  assert (G : forall s, nclean (bs_slash s) = nclean s /\ memb 124 (bs_slash s) = memb 124 s).
+  { induction s as [|d s [I1 I2]]; [split; reflexivity|]. cbn [bs_slash map]. fold (bs_slash s).
+    rewrite !nclean_cons, I1. cbn [memb]. rewrite I2. unfold nbad.
+    destruct (d =? 92) eqn:E; [apply N.eqb_eq in E; subst; split; reflexivity | split; reflexivity]. }
+  destruct (G q) as [G1 G2]. rewrite G1, G2. reflexivity.
+Qed.
+
+Lemma forallb_pathok_bs ps : forallb pathok (map bs_slash ps) = forallb pathok ps.
+Proof. induction ps as [|p ps IH]; [reflexivity|]. cbn [map forallb]. rewrite pathok_bs_slash, IH. reflexivity. Qed.
+
+Lemma qpaths_nonempty ps : ps <> [] -> forallb pathok ps = true -> qpaths ps <> [].
+Proof.
+  destruct ps as [|p ps]; [congruence|]. intros _ H. cbn [forallb] in H. apply andb_true_iff in H. destruct H as [Hp _].
+  unfold pathok in Hp. destruct p as [|c p]; [discriminate|].
+  unfold qpaths. destruct ps; cbn [map join]; unfold nq_sub; cbn [flat_map];
+    destruct (memb c nq_build_class); discriminate.
+Qed.
+
+Definition seg (sep : str) (ps : list str) : str :=
+  match ps with [] => [] | _ => sep ++ qpaths (map bs_slash ps) end.
+
+(* the first line of a build statement, explicitly: every path list is written as the
+   ninja-quoted, blank-joined list of the paths with backslashes turned into slashes *)
+Theorem build_line_form outs imp rule ins deps ords :
+  forallb pathok outs = true -> forallb pathok imp = true -> forallb pathok ins = true ->
+  forallb pathok deps = true -> forallb pathok ords = true ->
+  build_line outs imp rule ins deps ords =
+    QOk (s2l "build " ++ qpaths (map bs_slash outs) ++ seg (s2l " | ") imp ++ s2l ": " ++ bs_slash rule ++ [32] ++
+         qpaths (map bs_slash ins) ++ seg (s2l " | ") deps ++ seg (s2l " || ") ords ++ [10]).
+Proof.
+  intros Ho Hi Hn Hd Hr. unfold build_line.
+  rewrite (quote_paths_ok ins Hn), (quote_paths_ok outs Ho), (quote_paths_ok imp Hi). cbn [qbind].
+  assert (D : (match deps with [] => QOk [] | _ => qbind (quote_paths deps) (fun d => QOk (s2l " | " ++ d)) end)
+              = QOk (match deps with [] => [] | _ => s2l " | " ++ qpaths deps end))
+    by (destruct deps; [reflexivity | rewrite (quote_paths_ok _ Hd); reflexivity]).
+  assert (O : (match ords with [] => QOk [] | _ => qbind (quote_paths ords) (fun d => QOk (s2l " || " ++ d)) end)
+              = QOk (match ords with [] => [] | _ => s2l " || " ++ qpaths ords end))
+    by (destruct ords; [reflexivity | rewrite (quote_paths_ok _ Hr); reflexivity]).
+  rewrite D, O. cbn [qbind]. f_equal.
+  assert (I : (match qpaths imp with [] => [] | _ => s2l " | " ++ qpaths imp end)
+              = match imp with [] => [] | _ => s2l " | " ++ qpaths imp end).
+  { destruct imp as [|i imp]; [reflexivity|].
+    destruct (qpaths (i :: imp)) eqn:Q; [|reflexivity].
+    exfalso. apply (qpaths_nonempty (i :: imp)); [discriminate | exact Hi | exact Q]. }
+  rewrite I. rewrite !bs_slash_app. rewrite !bs_slash_qpaths.
+  unfold seg.
+  destruct imp, deps, ords; cbn [map]; rewrite ?bs_slash_app, ?bs_slash_qpaths; reflexivity.
+Qed.
+
+(* ------------------------------------------------------------------ the _RSP rule's own command line *)
+
+Lemma neval_pieces_then env : forall ps rest, forallb piece_ok ps = true ->
+  neval env NLit (join [32] (map render_piece ps) ++ 32 :: rest) =
+    napp (join [32] (map (piece_val env) ps)) (ncons 32 (neval env NLit rest)).
+Proof.
+  induction ps as [|p ps IH]; intros rest H.
+  - cbn [map join app]. rewrite neval_blank. destruct (neval env NLit rest); reflexivity.
+  - cbn [forallb] in H. apply andb_true_iff in H. destruct H as [Hp Hps].
+    destruct ps as [|p2 ps].
+    + cbn [map join]. destruct p as [t|n]; cbn [piece_ok render_piece piece_val] in *.
+      * rewrite neval_lit by assumption. rewrite neval_blank. reflexivity.
+      * destruct n as [|c n]; [discriminate|]. cbn [app].
+        change (36 :: c :: n ++ 32 :: rest) with (36 :: (c :: n) ++ 32 :: rest).
+        rewrite neval_var_blank; [reflexivity | discriminate | assumption].
+    + cbn [map]. rewrite !join_cons2. specialize (IH rest Hps). cbn [map] in IH.
+      destruct p as [t|n]; cbn [piece_ok render_piece piece_val] in *.
+      * rewrite <- !app_assoc. rewrite neval_lit by assumption. cbn [app]. rewrite neval_blank.
+        rewrite IH. destruct (neval env NLit rest); cbn; rewrite <- ?app_assoc; reflexivity.
+      * destruct n as [|c n]; [discriminate|].
+        rewrite <- !app_assoc. cbn [app]. change (36 :: c :: n ++ 32 :: ?r) with (36 :: (c :: n) ++ 32 :: r).
+        rewrite neval_var_blank; [| discriminate | assumption]. rewrite IH.
+        destruct (neval env NLit rest); cbn; rewrite <- ?app_assoc; reflexivity.
+Qed.
+
+Definition s_out : str := s2l "out".
+Definition s_dot_rsp : str := s2l ".rsp".
+
+Lemma neval_at_out_rsp env : neval env NLit (s2l "@$out.rsp") = NOk (64 :: lookup env s_out ++ s_dot_rsp).
+Proof. cbn. reflexivity. Qed.
+
+Lemma sh_safe_word w : w <> [] -> forallb sh_safe w = true -> sh_tokens w = ShOk [W w].
+Proof.
+  intros Hne H. pose proof (sh_quote_single w) as Q. unfold shlex_quote in Q.
+  destruct w as [|c w]; [congruence|]. rewrite H in Q. exact Q.
+Qed.
+
+(* the command line of a response-file rule: `<command words> @$out.rsp` reaches the compiler
+   as the command words followed by the single word @<out>.rsp *)
+Theorem rsp_command_tokens env items (vals : str -> list tok) :
+  forallb citem_ok items = true ->
+  (forall n, In (CVar n) items -> sh_tokens (lookup env n) = ShOk (vals n)) ->
+  forallb sh_safe (lookup env s_out) = true ->
+  exists cs, rsp_command (map citem_ritem items) = QOk cs /\
+             ninja_sh env cs =
+               Some (concat (map (fun it => match it with CLit s => [tok_of s] | CVar n => vals n end) items)
+                     ++ [W (64 :: lookup env s_out ++ s_dot_rsp)]).
+Proof.
+  intros Hok Hv Hout. destruct (qmap_items_ok QfShell items Hok) as [Q P].
+  unfold rsp_command. rewrite Q. cbn [qjoin qbind]. eexists. split; [reflexivity|].
+  unfold ninja_sh, ninja_eval, rsp_suffix.
+  change (s2l " @$out.rsp") with (32 :: s2l "@$out.rsp").
+  rewrite (neval_pieces_then env _ _ P). rewrite neval_at_out_rsp. cbn [ncons napp].
+  rewrite (sh_tokens_compose _ _ (concat (map (fun it => match it with CLit s => [tok_of s] | CVar n => vals n end) items))
+                             [W (64 :: lookup env s_out ++ s_dot_rsp)]); [reflexivity | |].
+  - apply sh_tokens_join. clear Q P Hok. induction items as [|it items IH]; cbn [map]; [constructor|].
+    constructor.
+    + destruct it as [s|n]; cbn [citem_piece piece_val]; [exact (sh_enc_list [s]) | apply Hv; left; reflexivity].
+    + apply IH. intros n Hn. apply Hv. right. exact Hn.
+  - apply sh_safe_word; [discriminate|]. cbn [forallb]. rewrite forallb_app, Hout. reflexivity.
+Qed.
+
+(* GCC replaces an argument @file by the arguments read from the file (expandargv) *)
+Definition expand_at (fname content : str) (argv : list str) : list str :=
+  flat_map (fun a => if str_eqb a (64 :: fname) then gcc_rsp_args content else [a]) argv.
+
+Lemma expand_at_words fname content ws :
+  forallb (fun a => negb (str_eqb a (64 :: fname))) ws = true ->
+  expand_at fname content (ws ++ [64 :: fname]) = ws ++ gcc_rsp_args content.
+Proof.
+  intros H. unfold expand_at. rewrite flat_map_app. cbn [flat_map]. rewrite str_eqb_refl, app_nil_r. f_equal.
+  induction ws as [|w ws IH]; [reflexivity|]. cbn [forallb] in H. apply andb_true_iff in H. destruct H as [Hw Hws].
+  apply negb_true_iff in Hw. cbn [flat_map]. rewrite Hw. cbn [app]. f_equal. apply IH. exact Hws.
+Qed.
+
+(* MAIN (response-file statements, whole path): the compiler is started by /bin/sh with the
+   rule's command words and @<out>.rsp; ninja has written rspfile_content into that file; after
+   GCC's @file expansion the arguments are the command words followed by the rule's argument
+   words and, for each $VAR, exactly the element list stored under VAR *)
+Theorem rsp_statement_argv fenv env (cmdw : list str) (aitems : list citem) (elems : str -> list str) :
+  forallb citem_ok (map CLit cmdw) = true -> no_andand cmdw = true ->
+  forallb citem_ok aitems = true ->
+  (forall n, In (CVar n) aitems ->
+     exists line, write_elems QfRsp true (elems n) = QOk line /\ ninja_eval fenv line = NOk (lookup env n)) ->
+  forallb sh_safe (lookup env s_out) = true ->
+  forallb (fun a => negb (str_eqb a (64 :: lookup env s_out ++ s_dot_rsp))) cmdw = true ->
+  exists cs cc content argv,
+    rsp_command (map citem_ritem (map CLit cmdw)) = QOk cs /\
+    rspfile_content (map citem_ritem aitems) = QOk cc /\
+    ninja_eval env cc = NOk content /\
+    option_map split_cmds (ninja_sh env cs) = Some [argv] /\
+    expand_at (lookup env s_out ++ s_dot_rsp) content argv =
+      cmdw ++ concat (map (fun it => match it with CLit s => [s] | CVar n => elems n end) aitems).
+Proof.
+  intros Hc Ha Hai Hb Hout Hne.
+  destruct (rsp_command_tokens env (map CLit cmdw) (fun _ => []) Hc) as (cs & Hcs & Hsh);
+    [intros n Hn; apply in_map_iff in Hn; destruct Hn as (x & Hx & _); discriminate | exact Hout |].
+  destruct (rsp_rule_content_args fenv env aitems elems Hai Hb) as (cc & content & Hcc & Hev & Hargs).
+  exists cs, cc, content, (cmdw ++ [64 :: lookup env s_out ++ s_dot_rsp]).
+  split; [exact Hcs|]. split; [exact Hcc|]. split; [exact Hev|]. split.
+  - rewrite Hsh. cbn [option_map]. f_equal.
+    assert (E : concat (map (fun it => match it with CLit s => [tok_of s] | CVar _ => [] end) (map CLit cmdw)) = map W cmdw).
+    { rewrite <- (tok_of_words cmdw Ha). clear. induction cmdw; cbn; congruence. }
+    rewrite E. change [W (64 :: lookup env s_out ++ s_dot_rsp)] with (map W [64 :: lookup env s_out ++ s_dot_rsp]).
+    rewrite <- map_app. apply split_cmds_words.
+  - rewrite expand_at_words by exact Hne. rewrite Hargs. reflexivity.
+Qed.
+
+(* ------------------------------------------------------------------ @TEMPLATE@ substitution *)
+
+(* every key of the dictionary is a template name: it starts with @ *)
+Definition keys_at (d : tdict) : bool :=
+  forallb (fun kv : str * tval => match fst kv with 64 :: _ => true | _ => false end) d.
+Definition no_at (s : str) : bool := negb (memb 64 s).
+
+Lemma prefixb_at_false k s : no_at s = true -> prefixb (64 :: k) s = false.
+Proof.
+  destruct s as [|c s]; [reflexivity|]. unfold no_at. cbn [memb prefixb]. intros H.
+  apply negb_true_iff in H. apply orb_false_iff in H. destruct H as [H _]. rewrite H. reflexivity.
+Qed.
+
+Lemma no_at_tail c s : no_at (c :: s) = true -> no_at s = true.
+Proof. unfold no_at. cbn [memb]. intros H. apply negb_true_iff in H. apply orb_false_iff in H. destruct H as [_ H]. rewrite H. reflexivity. Qed.
+
+Lemma at_head (c : char) (k : str) : (match c :: k with 64 :: _ => true | _ => false end) = true -> c = 64.
+Proof.
+  destruct c as [|p]; [discriminate|]. do 7 (destruct p as [p|p|]; try discriminate). reflexivity.
+Qed.
+
+Lemma try_keys_no_at d s : keys_at d = true -> no_at s = true -> try_keys d s = None.
+Proof.
+  induction d as [|[k v] d IH]; intros K H; [reflexivity|].
+  cbn [keys_at forallb fst] in K. apply andb_true_iff in K. destruct K as [Kk Kd].
+  destruct k as [|c k]; [discriminate|]. apply (at_head c k) in Kk. subst c.
+  cbn [try_keys]. unfold char in *. rewrite (prefixb_at_false k s H). apply IH; assumption.
+Qed.
+
+Lemma sub_go_no_at d : forall s, keys_at d = true -> no_at s = true -> sub_go d O s = Some s.
+Proof.
+  induction s as [|c s IH]; intros K H; [reflexivity|].
+  cbn [sub_go]. rewrite (try_keys_no_at d (c :: s) K H). rewrite (IH K (no_at_tail _ _ H)). reflexivity.
+Qed.
+
+Lemma tlookup_no_at d s : keys_at d = true -> no_at s = true -> tlookup d s = None.
+Proof.
+  induction d as [|[k v] d IH]; intros K H; [reflexivity|].
+  cbn [keys_at forallb fst] in K. apply andb_true_iff in K. destruct K as [Kk Kd].
+  cbn [tlookup]. destruct (str_eqb k s) eqn:E; [|apply IH; assumption].
+  apply str_eqb_eq in E. subst k. destruct s as [|c s]; [discriminate|].
+  apply (at_head c s) in Kk. subst c. unfold no_at in H. cbn in H. discriminate.
+Qed.
+
+Lemma find_numbered_no_at k s : no_at s = true -> find_numbered (64 :: k) s = None.
+Proof.
+  induction s as [|c s IH]; intros H; [reflexivity|].
+  cbn [find_numbered]. rewrite (prefixb_at_false k (c :: s) H). apply IH. exact (no_at_tail _ _ H).
+Qed.
+
+Lemma contains_no_at k s : no_at s = true -> contains (64 :: k) s = false.
+Proof.
+  induction s as [|c s IH]; intros H; [reflexivity|].
+  cbn [contains]. rewrite (prefixb_at_false k (c :: s) H). apply IH. exact (no_at_tail _ _ H).
+Qed.
+
+Lemma existsb_false_all {A} (f : A -> bool) l : (forall x, In x l -> f x = false) -> existsb f l = false.
+Proof.
+  induction l as [|a l IH]; intros H; [reflexivity|]. cbn [existsb].
+  rewrite (H a (or_introl eq_refl)). apply IH. intros x Hx. apply H. right. exact Hx.
+Qed.
+
+Lemma check_errors_no_at cmd d : forallb no_at cmd = true -> check_errors cmd d = false.
+Proof.
+  intros H. rewrite forallb_forall in H. unfold check_errors.
+  assert (N : forall k, existsb (fun s => match find_numbered (64 :: k) s with Some _ => true | None => false end) cmd = false)
+    by (intros k; apply existsb_false_all; intros x Hx; rewrite (find_numbered_no_at k x (H x Hx)); reflexivity).
+  assert (B : forall k, existsb (fun s => match find_numbered (64 :: k) s with Some m => negb (has_key d m) | None => false end) cmd = false)
+    by (intros k; apply existsb_false_all; intros x Hx; rewrite (find_numbered_no_at k x (H x Hx)); reflexivity).
+  assert (C : forall k, existsb (contains (64 :: k)) cmd = false)
+    by (intros k; apply existsb_false_all; intros x Hx; apply contains_no_at; apply H; exact Hx).
+  change p_input with (64 :: s2l "INPUT"). change p_output with (64 :: s2l "OUTPUT").
+  change t_plainname with (64 :: s2l "PLAINNAME@"). change t_basename with (64 :: s2l "BASENAME@").
+  change t_outdir with (64 :: s2l "OUTDIR@").
+  rewrite !N, !B, !C.
+  destruct (tlookup d t_input) as [[?|[|? [|? ?]]]|], (tlookup d t_output); reflexivity.
+Qed.
+
+Lemma sub_cmd_no_at d : forall cmd, keys_at d = true -> forallb no_at cmd = true -> sub_cmd d cmd = Some cmd.
+Proof.
+  induction cmd as [|a cmd IH]; intros K H; [reflexivity|].
+  cbn [forallb] in H. apply andb_true_iff in H. destruct H as [Ha Hc].
+  cbn [sub_cmd]. rewrite (IH K Hc), (tlookup_no_at d a K Ha), (sub_go_no_at d a K Ha). reflexivity.
+Qed.
+
+(* "@TEMPLATE@ placeholders are substituted" is the ONLY thing this stage does: a command
+   whose strings contain no @ passes the error check and comes out unchanged - same
+   strings, same count, same order - for every template dictionary *)
+Theorem substitute_values_identity cmd d : keys_at d = true -> forallb no_at cmd = true ->
+  substitute_values cmd d = SOk cmd.
+Proof.
+  intros K H. unfold substitute_values. rewrite (check_errors_no_at cmd d H).
+  destruct d; [reflexivity|]. rewrite (sub_cmd_no_at _ cmd K H). reflexivity.
+Qed.
+
+Lemma str_replace_no_at k new s : no_at s = true -> str_replace (64 :: k) new s = s.
+Proof. intros H. unfold str_replace. rewrite sub_go_no_at; [reflexivity | reflexivity | exact H]. Qed.
+
+(* eval_custom_target_command on such a command: the backslash normalisation and nothing else *)
+Theorem eval_custom_cmd_plain sr br cs d cmd : keys_at d = true -> forallb no_at cmd = true ->
+  eval_custom_cmd sr br cs d cmd = SOk (map bs_norm cmd).
+Proof.
+  intros K H. unfold eval_custom_cmd.
+  assert (P : map (pre_subst sr br cs) cmd = cmd).
+  { rewrite forallb_forall in H. rewrite <- (map_id cmd) at 2. apply map_ext_in. intros a Ha.
+    unfold pre_subst, t_source_root, t_build_root, t_cur_src.
+    change (s2l "@SOURCE_ROOT@") with (64 :: s2l "SOURCE_ROOT@").
+    change (s2l "@BUILD_ROOT@") with (64 :: s2l "BUILD_ROOT@").
+    change (s2l "@CURRENT_SOURCE_DIR@") with (64 :: s2l "CURRENT_SOURCE_DIR@").
+    rewrite (str_replace_no_at _ sr a (H a Ha)), (str_replace_no_at _ br a (H a Ha)), (str_replace_no_at _ cs a (H a Ha)). reflexivity. }
+  rewrite P, (substitute_values_identity cmd d K H). reflexivity.
+Qed.
+
+(* an element that is exactly a list-valued template (@INPUT@ / @OUTPUT@) is replaced, in
+   place, by all the files; the elements around it are substituted independently *)
+Theorem sub_cmd_list_template d k l : tlookup d k = Some (TList l) ->
+  forall a b a' b', sub_cmd d a = Some a' -> sub_cmd d b = Some b' ->
+  sub_cmd d (a ++ k :: b) = Some (a' ++ l ++ b').
+Proof.
+  intros Hk. induction a as [|x a IH]; intros b a' b' Ha Hb.
+  - cbn in Ha. inversion Ha; subst. cbn [app sub_cmd]. rewrite Hb, Hk. reflexivity.
+  - cbn [app sub_cmd] in Ha |- *. destruct (sub_cmd d a) as [ra|] eqn:Ea; [|discriminate].
+    rewrite (IH b ra b' eq_refl Hb).
+    destruct (tlookup d x) as [[o|lx]|]; [| |destruct (sub_go d O x)]; inversion Ha; subst;
+      rewrite <- ?app_assoc; reflexivity.
+Qed.
+
+(* a matched placeholder is replaced by its value and the scan resumes AFTER the
+   placeholder: the inserted value is never rescanned *)
+Lemma sub_go_skip d : forall k r, sub_go d (length k) (k ++ r) = sub_go d O r.
+Proof. induction k as [|c k IH]; intros r; [reflexivity|]. cbn [length app sub_go]. apply IH. Qed.
+
+Theorem sub_go_placeholder d k v r : k <> [] -> try_keys d (k ++ r) = Some (TStr v, length k) ->
+  sub_go d O (k ++ r) = option_map (app v) (sub_go d O r).
+Proof.
+  intros Hne Ht. destruct k as [|c k]; [congruence|].
+  cbn [app] in Ht |- *. cbn [sub_go]. rewrite Ht. cbn [tval_text length pred].
+  rewrite sub_go_skip. destruct (sub_go d O r); reflexivity.
+Qed.
+
+(* ------------------------------------------------------------------ tests *)
+
+(* the arguments of test() reach the test process unchanged, contiguous and in order: there is
+   no quoting layer at all (create_subprocess_exec); only the wrapper / interpreter in front
+   and --test-args behind are added *)
+Theorem test_cmdline_args w f a t :
+  test_cmdline w f a t = (w ++ f) ++ a ++ t /\ (w = [] -> t = [] -> test_cmdline w f a t = f ++ a).
+Proof. split; [reflexivity|]. intros -> ->. unfold test_cmdline. cbn [app]. rewrite app_nil_r. reflexivity. Qed.
